@@ -141,6 +141,18 @@ func discharge(o *Oblig, timeoutS int, thorough bool) SolveResult {
 		r.Tried = []string{fmt.Sprintf("%s:%s:%.2fs", r.Solver, r.Status, r.TimeS)}
 		return r
 	}
+	// stage 0: without the quantified assumptions (sound: fewer assumptions); most safety obligations end here
+	if !quantified(o.Phi) {
+		r0 := runSolver(solvers[0], o.QueryQF(), min(timeoutS, 5))
+		tried = append(tried, fmt.Sprintf("%s(qf):%s:%.2fs", r0.Solver, r0.Status, r0.TimeS))
+		if r0.Status == "unsat" {
+			r0.Tried = tried
+			r0.Solver += " (quantifier-free slice)"
+			if !thorough {
+				return r0
+			}
+		}
+	}
 	first := runSolver(solvers[0], q, timeoutS)
 	tried = append(tried, fmt.Sprintf("%s:%s:%.2fs", first.Solver, first.Status, first.TimeS))
 	res := first
